@@ -175,11 +175,18 @@ pub fn xz_bytes(data: &[u8]) -> Outcome {
 pub fn raw_lzma(payload: &[u8], lc: u32, lp: u32, pb: u32, dict: u32, size: Option<u64>, memlimit: Option<usize>) -> (Outcome, usize) {
     let mut out = Vec::new();
     let mut rd = payload;
-    let c = catch(|| {
+    // the constructor on its own: a panic there (the assertions on lc / lp / pb) is the constructor NOT accepting the
+    // parameters - C07 speaks about "any parameter values their constructors accept"
+    let built = catch(|| {
         let params = LzmaParams::new(LzmaProperties { lc, lp, pb }, dict, size);
-        let mut d = LzmaDecoder::new(params, memlimit)?;
-        d.decompress(&mut rd, &mut out)
+        LzmaDecoder::new(params, memlimit)
     });
+    let mut d = match built {
+        Caught::Done(Ok(d)) => d,
+        Caught::Done(Err(e)) => return (Outcome { verdict: Verdict::Err, out: vec![], msg: format!("constructor: {:?}", e) }, 0),
+        Caught::Panic(m) => return (Outcome { verdict: Verdict::Err, out: vec![], msg: format!("constructor refused (panic): {}", m) }, 0),
+    };
+    let c = catch(|| d.decompress(&mut rd, &mut out));
     let left = rd.len();
     (wrap(c, out), payload.len() - left)
 }
